@@ -120,7 +120,10 @@ func GenWD(rng *Rng, prop string) *WDScript {
 	collNames := []string{"c1", "c2"}
 	partNames := []string{"p1", "p2"}
 	n := rng.Range(8, 26)
-	partBias := prop == "C20" || rng.Pct(30)
+	partBias := rng.Pct(30)
+	if prop == "C20" {
+		partBias = rng.Pct(60) // the other runs use several collections (lists of collections in one request)
+	}
 	for i := 0; i < n; i++ {
 		d := Pick(rng, dbNames)
 		c := Pick(rng, collNames)
@@ -200,15 +203,19 @@ func GenWD(rng *Rng, prop string) *WDScript {
 			if k == "flush" {
 				e.Colls = []string{c}
 				e.IncColls = map[string]int{c: co.inc}
-				other := collNames[0]
-				if other == c {
-					other = collNames[1]
-				}
 				da, _ := refMap(sc.Mapping, d, c)
-				db2, _ := refMap(sc.Mapping, d, other)
-				if oo := colls[d+"/"+other]; oo != nil && oo.alive && da == db2 && rng.Pct(50) {
-					e.Colls = append(e.Colls, other)
-					e.IncColls[other] = oo.inc
+				for _, other := range collNames {
+					if other == c {
+						continue
+					}
+					db2, _ := refMap(sc.Mapping, d, other)
+					if oo := colls[d+"/"+other]; oo != nil && oo.alive && da == db2 && rng.Pct(70) {
+						e.Colls = append(e.Colls, other)
+						e.IncColls[other] = oo.inc
+					}
+				}
+				if len(e.Colls) > 1 && rng.Bool() {
+					e.Colls[0], e.Colls[len(e.Colls)-1] = e.Colls[len(e.Colls)-1], e.Colls[0]
 				}
 			}
 			add(e)
